@@ -229,6 +229,7 @@ func run(c *core.Case) {
 	sizes := []int{12, 40, 200, 700, 1500}
 	var wg sync.WaitGroup
 	var start sync.WaitGroup
+	var ioStopped atomic.Int64
 	start.Add(1)
 	type plan struct {
 		kind hist.RegKind
@@ -257,13 +258,20 @@ func run(c *core.Case) {
 			defer wg.Done()
 			start.Wait()
 			for i, p := range ops {
+				var op hist.RegOp
 				switch p.kind {
 				case hist.RegSet:
-					doSet(db, cl, p.key, fmt.Sprintf("w%d.%d", g, i), p.size)
+					op = doSet(db, cl, p.key, fmt.Sprintf("w%d.%d", g, i), p.size)
 				case hist.RegDel:
-					doDel(db, cl, p.key)
+					op = doDel(db, cl, p.key)
 				default:
-					doGet(db, cl, p.key)
+					op = doGet(db, cl, p.key)
+				}
+				if cfg.WalFaultAt > 0 && op.Status == hist.Open && p.kind != hist.RegGet {
+					// the device is gone: every further write would have an unknown outcome
+					// (one open-ended write per client keeps the history checkable)
+					ioStopped.Add(1)
+					return
 				}
 				if p.yld {
 					runtime.Gosched()
@@ -271,6 +279,7 @@ func run(c *core.Case) {
 			}
 		}(g, ops)
 	}
+	c.Count("clients_stopped_at_first_io_error", 0)
 	rotStop := make(chan struct{})
 	var rotWG sync.WaitGroup
 	if cfg.Rotator {
@@ -319,6 +328,7 @@ func run(c *core.Case) {
 		layoutBefore = "live-after-io-fault"
 		c.Count("cases_with_wal_io_fault", 1)
 		c.Count("wal_ops_failed", int(walFailed.Load()))
+		c.Count("clients_stopped_at_first_io_error", int(ioStopped.Load()))
 	}
 	// Tail: writers keep writing while Close runs (only writes race Close; the
 	// property names "closed" as a write error, reads on a closing DB are not
